@@ -235,6 +235,7 @@ class Cell:
                    self.fill, self.lat, self.trcl, self.like,
                    None if self.but is None else list(self.but))
         new.lat_info = self.lat_info
+        new.extra_opts = list(getattr(self, 'extra_opts', None) or [])
         return new
 
 
@@ -406,6 +407,9 @@ def option_atoms(deck, cel, only=None):
             out.append(f'{star}fill={fil.universe}')
         if fil.tr is not None:
             out.extend(fil.tr.atoms_paren())
+    for extra in getattr(cel, 'extra_opts', None) or []:
+        if only is None:
+            out.append(extra)
     if cel.trcl is not None and want('trcl'):
         star = '*' if cel.trcl.starred else ''
         if cel.trcl.number is not None:
